@@ -11,7 +11,7 @@ import time
 
 HERE = os.path.dirname(os.path.abspath(__file__))
 VERIF = os.path.dirname(HERE)
-CACHE = os.path.join(VERIF, '.cache', 'wx-target')
+CACHE = os.environ.get('VERIF_WX_CACHE') or os.path.join(VERIF, '.cache', 'wx-target')
 sys.path.insert(0, VERIF)
 import cachestamp  # noqa: E402
 
@@ -54,6 +54,9 @@ WITNESS = {
   'tsstmt': ('samlang-compiler', 'crates/samlang-compiler/src/lib.rs', 'wx/witness/samlang_compiler_exec.rs', 'verif_witness_search_exec_backends'),
   'fmtterm': ('samlang-printer', 'crates/samlang-printer/src/lib.rs', 'wx/witness/samlang_printer_modules.rs', 'verif_witness_search_formatter_terminates'),
   'fmtserver': ('samlang-services', 'crates/samlang-services/src/server_state.rs', 'wx/witness/samlang_services_server_state.rs', 'verif_witness_search_format_requests'),
+  'gen_semantics': ('samlang-compiler', 'crates/samlang-compiler/src/lib.rs', 'wx/witness/samlang_compiler_gen.rs', 'verif_witness_search_gen_semantics'),
+  'gen_backends': ('samlang-compiler', 'crates/samlang-compiler/src/lib.rs', 'wx/witness/samlang_compiler_gen.rs', 'verif_witness_search_gen_backends'),
+  'gen_optimizer': ('samlang-compiler', 'crates/samlang-compiler/src/lib.rs', 'wx/witness/samlang_compiler_gen.rs', 'verif_witness_search_gen_optimizer'),
   'nocrash': ('samlang-compiler', 'crates/samlang-compiler/src/lib.rs', 'wx/witness/samlang_compiler_lib.rs', 'verif_witness_search_no_crash'),
   'loctree': ('samlang-parser', 'crates/samlang-parser/src/lib.rs', 'wx/witness/samlang_parser_locations.rs', 'verif_witness_search_location_tree'),
   'printmods': ('samlang-printer', 'crates/samlang-printer/src/lib.rs', 'wx/witness/samlang_printer_modules.rs', 'verif_witness_search_modules'),
